@@ -320,11 +320,11 @@ Proof.
   intros fuel st o st' ev e Ho H HI. destruct o as [l|h|h|n|]; cbn in Ho; try tauto; cbn [step] in H.
   - destruct (resolve_all T l) as [hs|] eqn:ER; [|inversion H; subst; auto].
     destruct (contiguous hs); [|inversion H; subst; auto].
-    eapply insert_chain_inv; eauto. eapply resolve_all_ok; eauto.
+    eapply insert_chain_inv; eauto; eapply resolve_all_ok; eauto.
   - destruct (T h) as [b|] eqn:ET; [|inversion H; subst; auto].
-    eapply insert_chain_inv; eauto. constructor; [exact ET|constructor].
+    eapply insert_chain_inv; eauto.
   - destruct (get_by_hash T st h) as [x|] eqn:EG; [|inversion H; subst; auto].
-    eapply set_canonical_inv; eauto. eapply get_by_hash_ok; eauto.
+    eapply set_canonical_inv; eauto; eapply get_by_hash_ok; eauto.
 Qed.
 
 Lemma Inv_genesis : Inv genesis_db.
